@@ -1505,7 +1505,9 @@ def parser_run(ctx: Ctx, out: Outcome) -> None:
     rng = ctx.rng
     vectors_fixed = [(1, 0), (0, -1), (-10000, -10000), (7, 10000), (-3333, 4)]
     stats = {"models": 0, "diagrams": 0, "translations": 0, "moves": 0, "elements": 0, "edges": {}, "ports": 0, "parse_errors": 0}
-    models = MODELS if ctx.thorough else MODELS[:1] + MODELS[3:]
+    models = MODELS if ctx.thorough else MODELS[:1] + MODELS[3:] + MODELS[1:3]
+    light = set() if ctx.thorough else set(MODELS[1:3])  # quick: the other two melody models are parsed and judged once, not translated
+    stats["models_parsed_without_translation"] = sorted(light)
     for rel in models:
         if not (common.REPO / rel).exists():
             continue
@@ -1534,6 +1536,9 @@ def parser_run(ctx: Ctx, out: Outcome) -> None:
             nontrivial = any(e["t"] == "edge" or e.get("parent") for e in base)
             for sig, what in soundness(base):
                 out.find(sig, f"{rel} {d.name!r}: {what}", {"kind": "sound", **where, "v": [0, 0]})
+            if rel in light:
+                out.case(("parse", rel, d.uuid), None, nontrivial)
+                continue
             tops = rig.top_nodes(td)
             ends = rig.edge_ends(td)
             lcs = [lc for _, lc in tops]
